@@ -42,11 +42,18 @@ Absorb(q) ==
 Zero == <<0, 1, 0>>
 One  == <<1, 1, 0>>
 
+\* an exponent that is not a multiple of 3 is folded back into the numerator (at most a factor 100)
+Fold3(q) == LET r == q[3] % 3 IN IF r = 0 THEN q ELSE <<q[1] * Pow10(r), q[2], q[3] - r>>
 Norm(q) ==
   IF q[1] = 0 THEN Zero
-  ELSE LET g == Gcd(Abs(q[1]), Abs(q[2]))
-           s == IF q[2] < 0 THEN -1 ELSE 1
-       IN  Strip(Absorb(<<(s * q[1]) \div g, (s * q[2]) \div g, q[3]>>))
+  ELSE LET f == Fold3(q)
+           g == Gcd(Abs(f[1]), Abs(f[2]))
+           s == IF f[2] < 0 THEN -1 ELSE 1
+       IN  Strip(Absorb(<<(s * f[1]) \div g, (s * f[2]) \div g, f[3]>>))
+
+\* n = m * 10^j with 10 not dividing m
+RECURSIVE TensOf(_)
+TensOf(n) == IF n # 0 /\ n % 10 = 0 THEN TensOf(n \div 10) + 1 ELSE 0
 
 Q(n, d)  == Norm(<<n, d, 0>>)
 QInt(n)  == Norm(<<n, 1, 0>>)
@@ -72,7 +79,21 @@ QMul(a, b) ==
   IF a[1] = 0 \/ b[1] = 0 THEN Zero
   ELSE LET g1 == Gcd(Abs(a[1]), b[2])
            g2 == Gcd(Abs(b[1]), a[2])
-       IN  Norm(<<(a[1] \div g1) * (b[1] \div g2), (a[2] \div g2) * (b[2] \div g1), a[3] + b[3]>>)
+           x  == a[1] \div g1
+           y  == b[1] \div g2
+           jx == TensOf(x)
+           jy == TensOf(y)
+           \* powers of ten go to the exponent before the numerators are multiplied
+       IN  Norm(<<(x \div Pow10(jx)) * (y \div Pow10(jy)), (a[2] \div g2) * (b[2] \div g1), a[3] + b[3] + jx + jy>>)
+
+\* n / (d * 10^k), cancelling the powers of ten the numerator contains before multiplying out
+RECURSIVE DivPow10(_, _, _)
+DivPow10(n, d, k) ==
+  IF k = 0 THEN Norm(<<n, d, 0>>)
+  ELSE IF n % 10 = 0 THEN DivPow10(n \div 10, d, k - 1)
+  ELSE IF n % 5 = 0 THEN DivPow10(n \div 5, d * 2, k - 1)
+  ELSE IF n % 2 = 0 THEN DivPow10(n \div 2, d * 5, k - 1)
+  ELSE DivPow10(n, d * 10, k - 1)
 
 \* the calculator defines x / 0 = 0
 QInv(b) == IF b[1] < 0 THEN <<-b[2], -b[1]>> ELSE <<b[2], b[1]>>
@@ -83,7 +104,7 @@ QDiv(a, b) ==
        IN  IF a[3] >= b[3] THEN Norm(<<p[1], p[2], p[3] + a[3] - b[3]>>)
            ELSE LET k == b[3] - a[3] - p[3]       \* divide by 10^k
                 IN IF k <= 0 THEN Norm(<<p[1], p[2], -k>>)
-                   ELSE Norm(<<p[1], p[2] * Pow10(k), 0>>)
+                   ELSE DivPow10(p[1], p[2], k)
 
 QLess(a, b) == QSub(a, b)[1] < 0
 QLeq(a, b) == QSub(a, b)[1] <= 0
